@@ -4,6 +4,7 @@
 package sarama
 
 import (
+	"crypto/tls"
 	"encoding/json"
 	"fmt"
 	"os"
@@ -147,6 +148,7 @@ type mdStats struct {
 func mdRunCase(c *mdCluster, idx int, mc *mdCase, ver string, st *mdStats) (events []kv) {
 	var seq int64
 	clientID := c.beginCase(&seq)
+	c.takeNotConn()
 	events = append(events, kv{"ev": "reset", "fam": mc.Fam, "ver": ver, "idx": idx})
 	var cl Client
 	defer func() {
@@ -170,6 +172,9 @@ func mdRunCase(c *mdCluster, idx int, mc *mdCase, ver string, st *mdStats) (even
 	}
 	conf := mdConfig(c, ver, retryMax)
 	conf.ClientID = clientID
+	if mc.Steer == "openwin" {
+		conf.Net.TLS.Config = &tls.Config{} // TLS stays disabled: Validate only logs the warning the steering parks on
+	}
 	for k := range mc.Steps {
 		step := &mc.Steps[k]
 		live, known := []string{}, []string{}
@@ -185,7 +190,7 @@ func mdRunCase(c *mdCluster, idx int, mc *mdCase, ver string, st *mdStats) (even
 		c.setModes(modes)
 		ev := kv{"ev": "step", "k": k, "mut": step.Mut, "req": append([]string{}, step.Req...),
 			"down": append([]string{}, step.Down...), "modes": modeNames, "r0": 0, "r1": 0, "conc": []interface{}{}, "nconc": 0,
-			"live": live, "known": known, "hold": step.Hold, "nref": 1, "retry": retryMax}
+			"live": live, "known": known, "hold": step.Hold, "steer": mc.Steer, "nref": 1, "retry": retryMax}
 		var err error
 		var results []string
 		if k == 0 {
@@ -213,13 +218,34 @@ func mdRunCase(c *mdCluster, idx int, mc *mdCase, ver string, st *mdStats) (even
 			errs := make([]error, n)
 			start := make(chan struct{})
 			var wg sync.WaitGroup
-			for g := 0; g < n; g++ {
+			for g := 0; g < n && mc.Steer == ""; g++ {
 				wg.Add(1)
 				go func(g int) {
 					defer wg.Done()
 					<-start
 					errs[g] = cl.RefreshMetadata(step.Req...)
 				}(g)
+			}
+			if mc.Steer == "openwin" && n == 2 {
+				// the model's counterexample, steered: caller A is parked inside Broker.Open's window on the
+				// candidate it turns to after the head failed; caller B runs meanwhile; then A is released
+				mdPark.mu.Lock()
+				mdPark.armed, mdPark.parked, mdPark.release = true, make(chan struct{}), make(chan struct{})
+				parked, release := mdPark.parked, mdPark.release
+				mdPark.mu.Unlock()
+				wg.Add(1)
+				go func() { defer wg.Done(); errs[0] = cl.RefreshMetadata(step.Req...) }()
+				select {
+				case <-parked:
+				case <-time.After(2 * time.Second):
+				}
+				wg.Add(1)
+				go func() { defer wg.Done(); errs[1] = cl.RefreshMetadata(step.Req...) }()
+				time.Sleep(150 * time.Millisecond)
+				mdPark.mu.Lock()
+				mdPark.armed = false
+				mdPark.mu.Unlock()
+				close(release)
 			}
 			close(start)
 			wg.Wait()
@@ -238,6 +264,7 @@ func mdRunCase(c *mdCluster, idx int, mc *mdCase, ver string, st *mdStats) (even
 			results = []string{mdResult(err)}
 		}
 		ev["results"] = results
+		ev["notconn"] = c.takeNotConn() // candidates from which a caller got ErrNotConnected during the refresh(es)
 		ev["result"] = mdResult(err)
 		ev["created"] = cl != nil
 		// distinct responses of this step are logged once (resps), serves are 1-based indexes into it
@@ -396,7 +423,7 @@ func mdConcRound(c *mdCluster, cl Client, seq *int64, rs []mdRead, req []string)
 }
 
 func TestVerifMetadata(t *testing.T) {
-	Logger = noopLogger{}
+	Logger = mdLogger{}
 	lines := vReadLines(t, "VERIF_CASES")
 	cases := make([]*mdCase, len(lines))
 	for i, l := range lines {
